@@ -93,6 +93,22 @@ func (f *Frame) callFn(st *State, r *Term, callee *ssa.Function, bindings []Val,
 		return model(f, st, r, target, args, pos)
 	}
 	ct := eng.contractFor(target)
+	if ct != nil && ct.Traced {
+		// ghost trace: on this path a call with these arguments is made
+		var ts []*Term
+		okArgs := true
+		for _, a := range args {
+			t, isT := a.(*Term)
+			if !isT {
+				okArgs = false
+				break
+			}
+			ts = append(ts, t)
+		}
+		if okArgs {
+			f.ctx.assume(Implies(r, f.ctx.uf("called!"+funcKey(target), SBool, ts...)))
+		}
+	}
 	if ct != nil && ct.Pure && !ct.Inline && f.top().fn != target {
 		// preconditions are still checked by the ordinary contract path below when there are any
 		if len(ct.Requires) == 0 && len(ct.Ensures) == 0 {
